@@ -146,7 +146,54 @@ fn check_field_set(env: &SchemaEnv, ty: &str, text: &str, st: &mut Stats) {
     st.outcome("field-set:roundtrip-ok");
 }
 
+// ---- strings family: one valid document with a string at every kind of string site x a string menu ----
+
+const STR_SIGMA: [&str; 10] = ["a", "\"", "\\", " ", "\t", "\n", "\r", "\u{1f}", "\u{85}", "é"];
+const STR_LINES: [&str; 7] = ["a", " a", "  a", "\ta", "", " ", "a "];
+
+fn string_menu(max_len: u32, max_lines: u32) -> Vec<String> {
+    use vcore::enumerate as en;
+    let mut v = Vec::new();
+    let k = STR_SIGMA.len() as u64;
+    let mut seq = Vec::new();
+    for i in 1..en::count_upto(k, max_len) {
+        en::nth_upto(k, i, &mut seq);
+        let mut s = String::new();
+        en::render(&STR_SIGMA, &seq, &mut s);
+        v.push(s);
+    }
+    let k = STR_LINES.len() as u64;
+    for n in 2..=max_lines {
+        for i in 0..en::count_exact(k, n) {
+            en::nth_exact(k, n, i, &mut seq);
+            v.push(seq.iter().map(|&x| STR_LINES[x]).collect::<Vec<_>>().join("\n"));
+        }
+    }
+    v
+}
+
+/// the string as variable default, String argument, and inside a list and an object of a custom-scalar argument
+fn string_document(s: &str) -> String {
+    let q = mini::quote(s);
+    format!("query Q($v: String = {q}) {{ g(s: {q}) x: g(s: $v) c(s: {{k: [{q}]}}) y: cn(s: {q}) }}")
+}
+
+fn run_string(env: &SchemaEnv, s: &str, st: &mut Stats) {
+    let text = string_document(s);
+    st.count("strings family documents", 1);
+    let before = st.outcomes.get("invalid:skipped").copied().unwrap_or(0);
+    check_one(env, &text, CONFIGS, &|| json!({"family": "strings", "string": s, "document": text}), st);
+    if st.outcomes.get("invalid:skipped").copied().unwrap_or(0) != before {
+        vcore::machinery_error(&format!("strings family: the template document is not valid: {text}"));
+    }
+}
+
 fn run_replay(case: &serde_json::Value, st: &mut Stats) {
+    if case["family"].as_str() == Some("strings") {
+        let envs = execdocs::schema_envs();
+        run_string(&envs[0], case["string"].as_str().unwrap_or(""), st);
+        return;
+    }
     if let Some(fs) = case["field_set"].as_str() {
         let sdl = case["schema"].as_str().unwrap_or("");
         let env = SchemaEnv::new("replay", sdl).unwrap_or_else(|e| vcore::machinery_error(&e));
@@ -210,11 +257,17 @@ fn main() {
         let merged = parts.into_iter().fold(Stats::default(), Stats::merge);
         chk.absorb(merged);
     }
+    let (str_len, str_lines) = (chk.tier().pick(3, 4), chk.tier().pick(3, 4));
+    let strings = string_menu(str_len, str_lines);
+    let stats = vcore::par_sweep(strings.len() as u64, 32, |i, st| run_string(&envs[0], &strings[i as usize], st));
+    chk.absorb(stats);
     let mut bounds = execdocs::bounds_json(&info);
+    bounds["strings_family"] = json!({"alphabet": STR_SIGMA, "max_len": str_len, "lines": STR_LINES, "max_lines": str_lines, "strings": strings.len(),
+        "template": string_document("S")});
     bounds["field_sets"] = json!({"max_selection_nodes": fs_nodes, "types": ["I", "T"], "explored": n_field_sets, "configs": ["Display", "default", "no_indent", "indent_prefix(\"\\t\")"]});
     bounds["serializer_configs"] = json!(CONFIGS);
     chk.bounds = bounds;
-    chk.rule = "every pair of the C17 space; non-trivial = pairs (and field sets) that apollo validates, i.e. on which the round trips are actually run".into();
+    chk.rule = "every pair of the C17 space, and one fixed valid document with every string of the strings menu at each of its string sites; non-trivial = pairs (and field sets) that apollo validates, i.e. on which the round trips are actually run".into();
     chk.assumptions = vec![
         "equality is apollo's own `PartialEq` on ExecutableDocument / Schema / SelectionSet (sources ignored)".into(),
         "validity is apollo's own verdict; whether it is right is C17".into(),
